@@ -226,7 +226,7 @@ func c10Value(t *rapid.T, tab *refbin.SymTab, textOK bool, depth int) model.Valu
 		case gen.Chance(t, 12):
 			return model.Unknown
 		case textOK && gen.Chance(t, 15):
-			return model.S(gen.Pick(t, []string{"fresh", "zz", "$ion_symbol_table", "imports"}))
+			return model.S(gen.Pick(t, []string{"fresh", "zz", "$ion_symbol_table", "imports", "$ion_1_0", "$ion_1_0"}))
 		}
 		// prefer local / imported symbols over the nine system symbols
 		if len(texts) > 9 && gen.Chance(t, 80) {
